@@ -138,6 +138,15 @@ def _work(job: t.Tuple[t.Any, ...]) -> evid.Local:
                 for dn in (False, True):
                     for v in [b""] + SYMS + [x + y for x in SYMS[:8] for y in SYMS[:8]]:
                         rec(L.FilterExtensibleMatch(rule, a, v, dn), "ext")
+        # names that begin with, contain or are a case variant of the ':dn' flag (recognising the flag by prefix or by
+        # position would take them for it), and values that look like header fields
+        for rule in (None, "dnSubtreeMatch", "DNy", "dn-1", "dnx", "dN1", "adn", "d", "n", "DN-", "distinguishedNameMatch"):
+            for a in (None, "cn", "dn", "DN", "dnQualifier", "dn;x-1", "Dn"):
+                if rule is None and a is None:
+                    continue
+                for dn in (False, True):
+                    for v in (b"", b"v", b":dn:", b":", b"dn", b":=", b"dn:=x"):
+                        rec(L.FilterExtensibleMatch(rule, a, v, dn), "ext")
         loc.distinct.add(("ext",))
     elif fam == "large":
         # beyond short values and shallow trees
